@@ -535,23 +535,46 @@ def _worker_init():
     engine.install(need_parser=True)
 
 
-def run_engine_many(cases, log=None):
-    """the real engine on every case, in worker processes (each with its own parser child and DuckDB connections); falls back to
-    this process when a pool cannot be used"""
-    payloads = [(script_of(c["stmts"]), c["structs"], c["dps"]) for c in cases]
-    if len(cases) >= 24:
-        try:
-            import multiprocessing as mp
-            with mp.get_context("spawn").Pool(min(10, NCPU), initializer=_worker_init) as pool:
-                return pool.map(_run_raw, payloads, chunksize=4)
-        except Exception as e:  # noqa
-            if log:
-                log("worker pool unavailable, running the engine serially:", repr(e)[:200])
-    return [_run_raw(p) for p in payloads]
+class EngineRuns:
+    """the real engine on every case, in worker processes (each with its own parser child and DuckDB connections) started in the
+    background so that the Coq evaluation of the model overlaps with them; falls back to this process when a pool cannot be used"""
+
+    def __init__(self, cases, log=None):
+        self.payloads = [(script_of(c["stmts"]), c["structs"], c["dps"]) for c in cases]
+        self.log, self.pool, self.pending = log, None, None
+        if len(cases) >= 24:
+            try:
+                import multiprocessing as mp
+                self.pool = mp.get_context("spawn").Pool(min(10, NCPU), initializer=_worker_init)
+                self.pending = self.pool.map_async(_run_raw, self.payloads, chunksize=4)
+            except Exception as e:  # noqa
+                self._fallback(e)
+
+    def _fallback(self, e):
+        if self.log:
+            self.log("worker pool unavailable, running the engine in this process:", repr(e)[:200])
+        if self.pool is not None:
+            try:
+                self.pool.terminate()
+            except Exception:
+                pass
+        self.pool = self.pending = None
+
+    def get(self):
+        if self.pending is not None:
+            try:
+                out = self.pending.get(timeout=3000)
+                self.pool.close()
+                self.pool.join()
+                return out
+            except Exception as e:  # noqa
+                self._fallback(e)
+        return [_run_raw(p) for p in self.payloads]
 
 
 def eval_model(cases, tag):
-    return coq_eval(HEADER, [f"run_ascript {G.inputs_coq({n: d for n, d in c['dss'].items()})} {coq_of(c['stmts'])} \"DS_r\"" for c in cases], tag)
+    return coq_eval(HEADER, [f"run_ascript {G.inputs_coq({n: d for n, d in c['dss'].items()})} {coq_of(c['stmts'])} \"DS_r\"" for c in cases], tag,
+                    shard=max(40, -(-len(cases) // 8)))
 
 
 def _num(v) -> Optional[Fraction]:
@@ -892,10 +915,11 @@ def run_k(ctx, n_main, n_defect, tag="c03"):
         c = make_case(ctx.rng, ctx.tier, "defect")
         if c:
             cases.append(c)
-    ctx.log(f"K: {n_corpus} corpus + {len(cases) - n_corpus} generated cases; evaluating the model in Coq")
+    ctx.log(f"K: {n_corpus} corpus + {len(cases) - n_corpus} generated cases; engine runs started, evaluating the model in Coq")
+    runs = EngineRuns(cases, ctx.log)
     model = eval_model(cases, tag)
-    ctx.log("K: running the engine")
-    engine_results = run_engine_many(cases, ctx.log)
+    ctx.log("K: model evaluated; waiting for the engine runs")
+    engine_results = runs.get()
     ctx.log("K: comparing")
     hist: Dict[str, Dict[str, int]] = {k: {} for k in ("operators", "forms", "grouping", "having", "group_sizes", "input_rows",
                                                        "measure_types", "engine_errors", "result_datapoints")}
